@@ -83,6 +83,10 @@ func ctxRandIntn(ctx *Context, n int) int {
 
 func funcArrayRand(ctx *Context, this *VMValue, params []*VMValue) *VMValue {
 	arr, _ := this.ReadArray()
+	if len(arr.List) == 0 {
+		ctx.Error = errors.New("(arr.rand)值错误: 数组为空")
+		return nil
+	}
 	return arr.List[ctxRandIntn(ctx, len(arr.List))]
 }
 
